@@ -211,6 +211,13 @@ class ArrBase(object):
     def astype(self, t):
         ts = t if isinstance(t, str) else getattr(t, '__name__', str(t))
         if 'int' in ts:
+            bits = 31 if '32' in ts else 63
+            self_ = self
+            if self.ndim and not getattr(CTX(), 'replay', False) and CTX().side_on:
+                idx = [CTX().fresh('ci', 'int') for _ in self.shape]
+                inb = sym.and_(*[sym.and_(i >= 0, sym.cmp('<', i, d)) for i, d in zip(idx, self.shape)])
+                v = self.get(*idx)
+                CTX().prove('side:int%d-range' % (bits + 1), sym.implies(inb, sym.and_(sym.cmp('<', v, 2 ** bits), sym.cmp('>', v, -(2 ** bits)))), kind='side', inst=idx)
             return elementwise(sym.trunc_int, self, rdtype='int')
         if 'float' in ts:
             return elementwise(sym.to_real, self, rdtype='real')
@@ -1580,6 +1587,12 @@ class _NP(object):
         if a.ndim == 0 or (a.ndim == 1 and dim_conc(a.shape[0]) and a.shape[0] == 1):
             v = a.get(*([0] * a.ndim))
             return Arr((n,), lambda i: v, a.dtype)
+        if axis == 0 and dim_conc(a.shape[0]) and a.shape[0] == 1:
+            f = a.snap()
+            return Arr((n,) + tuple(a.shape[1:]), lambda i, *r: f(0, *r), a.dtype)
+        if axis == 0 and dim_conc(a.shape[0]) and isinstance(n, int):
+            f = a.snap()
+            return Arr((a.shape[0] * n,) + tuple(a.shape[1:]), lambda i, *r: f(sym.floordiv(i, n) if not isinstance(i, int) else i // n, *r), a.dtype)
         raise Unsupported('np.repeat general form')
 
     def outer(self, a, b):
